@@ -101,12 +101,23 @@ PEST_CALL_TO_REPO = {"skip": "ANY", "end_of_input": "EOI", "start_of_input": "SO
                      "stack_pop": "POP", "stack_match_pop": "POP_ALL", "stack_drop": "DROP"}
 
 
-def run(ctx):
+def run_opmap(ctx):
+    """Only R01-OPMAP / R01-BUILTIN (for properties that adopt the operator map: C06, C20)."""
+    return run(ctx, only_opmap=True)
+
+
+def run(ctx, only_opmap=False):
     units = ["core", "fx_macros", "fx_ops", "fx_pestgen"]
     fs = facts.load(*units)
     world = nodes.World(fs, ["pest_typed", "fx_macros"])
     repo = fs["pest_typed"]
     ctx.analysed = {"crates": ["pest_typed", "fx_macros", "fx_ops (derive output, optimizer on/off)", "pest_generator (built-in table)"]}
+    if not only_opmap:
+        run_classes(ctx, fs, world, repo)
+    run_opmap_part(ctx, fs, world, repo)
+
+
+def run_classes(ctx, fs, world, repo):
     rc = ctx.rule("R01-CLASS", "every TypedNode impl has the path invariants of exactly one PEG operator class (or is a reviewed non-operator node)")
     counts = {}
     uni = set()
@@ -189,6 +200,9 @@ def run(ctx):
                         "R07-SKIPTY": "R01-SKIP-TYPE", "R07-KIND": "R01-SKIP-KIND"})
     ctx.adopt(c19.run, {"R19-BOUNDS": "R01-REP-BOUNDS", "R19-SEQ": "R01-REP-SEQ", "R19-ALIAS": "R01-REP-ALIAS"})
 
+
+
+def run_opmap_part(ctx, fs, world, repo):
     # ---- R01-OPMAP
     ro = ctx.rule("R01-OPMAP", "for each pest operator form the generated type has the class tree of that operator (children in grammar order), "
                                "optimizer on and off")
